@@ -10,6 +10,10 @@ CFG = {
             "from-until index pairs, including unconstructible ones) probed at every chain version and with no "
             "version; pair cases: every ordered pair of the 43 constructible ranges registered on one method+path "
             "in both orders; header cases: fixed edge spellings plus seeded random values against four maxima. "
+            "triple cases: two disjoint ranges registered first, then a third (conflict must not depend on how many "
+            "handlers are already there); live-header cases: the same header values sent to a real server with "
+            "the header policy, once with a version-restricted endpoint in the API and once with only unrestricted "
+            "ones (status and a handler-entered counter). "
             "Non-trivial: a range other than 'all' / a pair with neither side 'all' / a header that is present; "
             "distinct by case content.",
     "exhaustive_note": "range and pair groups are exhaustive over the chain; the code inspects versions only "
